@@ -167,3 +167,23 @@ func VerifEveryDelay() {
 	zzverif.Assert(got >= int64(time.Second), "every_at_least_one_second")
 	zzverif.Cover("every_delay_done")
 }
+
+// Two restricted fields: month and hour. Start instants at the end of a month (day >= 28) late in the day, so that the
+// hour search wraps past midnight into the next month and the month restriction has to be re-checked.
+//
+//verif:harness prop=C04 name=next_month_and_hour unwind=70 qtimeout=30 solver=z3-new incr=off
+func VerifNextMonthHour() {
+	s := vStar()
+	wm := vW(12, 9)
+	wh := vW(22, 19)
+	s.Month = vMask("month_mask", months)
+	zzverif.Assume(s.Month&^vWindow(months, wm) == 0)
+	s.Hour = vMask("hour_mask", hours)
+	zzverif.Assume(s.Hour&^vWindow(hours, wh) == 0)
+	vCheckNext(s, func(t time.Time) {
+		zzverif.Assume(int(t.Month()) >= int(wm))
+		zzverif.Assume(t.Hour() >= int(wh))
+		zzverif.Assume(t.Day() >= 28)
+	})
+	zzverif.Cover("next_month_and_hour_done")
+}
